@@ -84,6 +84,16 @@ class Result:
         self.notes.extend(other.notes)
 
 
+def _die_with_parent():
+    """Pool workers (and through their closed pipes the node processes) must not outlive an aborted check."""
+    try:
+        import ctypes
+        import signal
+        ctypes.CDLL("libc.so.6", use_errno=True).prctl(1, signal.SIGKILL)      # PR_SET_PDEATHSIG
+    except Exception:
+        pass
+
+
 def _scan_memcheck(task, wdir, res):
     """valgrind prints '==pid== <error>' blocks on the node's stderr and keeps going; dedupe by first repo frame."""
     if "memcheck" not in (os.environ.get("VERIF_VNODE") or ""):
@@ -167,7 +177,7 @@ class Run:
             results = [_worker_entry(a) for a in args]
         else:
             ctx = mp.get_context("fork")
-            with ctx.Pool(min(nproc, len(tasks))) as pool:
+            with ctx.Pool(min(nproc, len(tasks)), initializer=_die_with_parent) as pool:
                 results = pool.map(_worker_entry, args, chunksize=1)
         for r in results:
             self.result.merge(r)
